@@ -1,5 +1,5 @@
 (* nvref_c07: line protocol
-     parse <d> <code>:<valhex|-> ...   -> ok <sexp|null> rest=<n> err=<0|1> | hang | unsupported | generic | fuel
+     parse <d> <code>:<valhex|-> ...   -> ok <sexp|null> rest=<n> err=<0|1> | unsupported | generic | fuel
         (tokens before EOF; <d> = recursion_depth on entry; same S-expression syntax as probes/front_probe.c)
      case <sx>                         -> prefix=<toks> infix=<toks> denote=<sexp> class=<name> nest=<n>
         <sx> ::= N <hex> | B 0|1 | V <hex> | O <code> <sx> <sx> | U <code> <sx> | F <sx> <hex> | I <sx> <hex> | C <hex> <n> <sx>*n
@@ -20,7 +20,6 @@ let dec_of_z (x : z) : ostring =
 let idhex bs = if bs = [] then "=" else hex_of_bytes bs
 let rec sexp (e : expr) : ostring =
   match e with
-  | ENull -> "null"
   | ENum z -> "(num " ^ dec_of_z z ^ ")"
   | EBool b -> if b then "(bool 1)" else "(bool 0)"
   | EStr s -> "(str " ^ idhex s ^ ")"
@@ -37,7 +36,7 @@ let show_res r =
   match r with
   | Ok (e, ts, err) ->
       Printf.sprintf "ok %s rest=%d err=%d" (match e with Some x -> sexp x | None -> "null") (List.length ts) (if err then 1 else 0)
-  | Hang -> "hang" | Unsupported -> "unsupported" | Generic -> "generic" | OutOfFuel -> "fuel"
+  | Unsupported -> "unsupported" | Generic -> "generic" | OutOfFuel -> "fuel"
 (* reads one <sx> from a word list *)
 let rec read_sx (w : ostring list) : sx * ostring list =
   match w with
